@@ -58,3 +58,45 @@ Example C02_nonvacuous :
   map ifit (pop st) = [3 # 1; 9 # 1] /\ option_map ifit (best st) = Some (9 # 1).
 Proof. vm_compute. auto. Qed.
 Print Assumptions C02_nonvacuous.
+
+(* ------------------------------------------------------------------------------------------------
+   THE TIE TO THE SOURCE for the greedy family.  gen/GenLoop.v holds the translations of DifferentialEvolution's overrides
+   _get_init_population / _get_new_population (trial evaluation and the `>=` replacement mask) / _from_population_g_to_fitness
+   (harness/translate_loop.py; the trial vectors are an oracle: the variation operators are C07's subject).
+   theories/CodeEqGreedy.v proves that `EALoop.step Greedy` / `EALoop.fit Greedy` simulate the generated run on every field
+   the code keeps; the slot-wise statements of C02 then read on the generated code. *)
+From TF Require Import Py CodeEqLoop CodeEqStep CodeEqGreedy.
+From TFG Require Import GenLoop.
+
+Theorem C02_code_step_greedy : forall (G P : Type) (dG : G) (dP : P) (g2p : G -> P) (f : P -> Q) par_value
+    (trials : EvolutionaryAlgorithm G P -> list G) (self : EvolutionaryAlgorithm G P) (st : state G P),
+  sim G P dG dP self st -> pop st <> [] -> (ea_n_jobs G P self <= 1)%Z ->
+  sim G P dG dP (de_from G P dG dP (de_new G P g2p f par_value trials self))
+      (step G P g2p (nf_of G P f self) Greedy (ea_elitism G P self) (ea_keep_history G P self) false st (trials self)).
+Proof. exact code_step_greedy. Qed.
+Print Assumptions C02_code_step_greedy.
+
+Theorem C02_code_fit_greedy : forall (G P : Type) (dG : G) (dP : P) (g2p : G -> P) (f : P -> Q) par_value
+    (trials : EvolutionaryAlgorithm G P -> list G) (var : state G P -> list G) (self0 : EvolutionaryAlgorithm G P) (gs0 : list G),
+  sim G P dG dP self0 (init_state G P) -> gs0 <> [] ->
+  (ea_n_jobs G P self0 <= 1)%Z -> ea_aim G P self0 <> NegInf -> fst (ea_on_generation G P self0) = true ->
+  (forall n, ea_no_increase_num G P self0 = Some n -> (0 <= n)%Z) ->
+  (forall s st, sim G P dG dP s st -> trials s = var st) ->
+  sim G P dG dP
+      (py_EvolutionaryAlgorithm_fit G P (de_init G P g2p f par_value gs0) (de_new G P g2p f par_value trials) (de_from G P dG dP) self0)
+      (fit G P g2p (nf_of G P f self0) Greedy (ea_elitism G P self0) (ea_keep_history G P self0)
+           (abs_aim (ea_aim G P self0)) (abs_nin (ea_no_increase_num G P self0)) var (Z.to_nat (ea_iters G P self0)) gs0).
+Proof. exact code_fit_greedy. Qed.
+Print Assumptions C02_code_fit_greedy.
+
+(* after the generated _get_new_population every slot holds its own trial iff trial >= parent, else its parent *)
+Theorem C02_src_greedy_slots : forall (G P : Type) (dG : G) (dP : P) (g2p : G -> P) (f : P -> Q) par_value
+    (trials : EvolutionaryAlgorithm G P -> list G) (self : EvolutionaryAlgorithm G P) (st : state G P),
+  sim G P dG dP self st -> (ea_n_jobs G P self <= 1)%Z ->
+  let batch := map (eval G P g2p (nf_of G P f self)) (trials self) in
+  let self' := de_new G P g2p f par_value trials self in
+  ea_fitness_i G P self' = map ifit (greedy G P batch (pop st)) /\
+  ea_population_g_i G P self' = map ig (greedy G P batch (pop st)) /\
+  ea_calls G P self' = (ea_calls G P self + Z.of_nat (length batch))%Z.
+Proof. exact src_greedy_slots. Qed.
+Print Assumptions C02_src_greedy_slots.
